@@ -10,7 +10,7 @@ CONSTANTS
  Genesis <- RGenesis
  Mutant = "none"
  MaxChain = 4
- MaxNotes = 2
+ MaxNotes = 1
  PConf <- PConf_b
 INVARIANT NoDoubleSpend
 INVARIANT NoCommitted
